@@ -132,14 +132,15 @@ class Abs:
             self.emit(prog, ("fail", CAT["intrinsic"]), ctx)
         return "leaf"
 
-    def need(self, data, ctx, prog, kind):
+    def need(self, data, ctx, prog, kind, name=None):
         from openapi_python_client.parser.properties.schemas import parse_reference_path
         from openapi_python_client.parser.errors import ParseError
         rp = parse_reference_path(data.ref)
         if isinstance(rp, ParseError):
             self.emit(prog, ("fail", CAT["intrinsic"]), ctx)
             return None
-        self.emit(prog, ("need", kind, self.nid(rp), list(ctx.roots)), ctx)
+        recur = (not ctx.create) and ctx.ovr == 0 and ctx.top_cls is not None and data.ref.endswith(f"/{ctx.top_cls}")
+        self.emit(prog, ("need", kind, self.nid(rp), list(ctx.roots), self.nid(name) if name is not None else 0, recur), ctx)
         return rp
 
     def walk(self, name, data, ctx, parent_name, prog, top=None):
@@ -153,7 +154,7 @@ class Abs:
             return "ref"
         sub = list(data.allOf) + list(data.anyOf) + list(data.oneOf)
         if len(sub) == 1 and isinstance(sub[0], oai.Reference):
-            rp = self.need(sub[0], ctx, prog, "wrapper")
+            rp = self.need(sub[0], ctx, prog, "wrapper", name)
             if data.default is not None:
                 self.imprecise.append(f"default on a single-reference wrapper at {name}")
             if top is not None and rp is not None:
@@ -211,9 +212,8 @@ class Abs:
         v = self.vid(tuple(sorted((k, repr(x)) for k, x in values.items())))
         self.emit(prog, ("mintenum", self.cid(ci.name), v), ctx)
         dflt = data.default
-        if dflt is not None and not (isinstance(dflt, vt) and type(dflt) is not bool and dflt in values.values()):
-            if not (isinstance(dflt, vt) and dflt in values.values()):
-                self.emit(prog, ("fail", CAT["intrinsic"]), ctx)
+        if dflt is not None and not (isinstance(dflt, vt) and dflt in set(values.values())):
+            self.emit(prog, ("fail", CAT["intrinsic"]), ctx)
         return "enum"
 
     # ------------------------------------------------------------ union.py UnionProperty.build
@@ -256,13 +256,13 @@ class Abs:
             if ctx.create:
                 # ... and the ModelProperty is appended to models_to_process as well: _process_models runs the body again
                 e2 = dict(entry)
-                e2["prog"] = [(op, 0) for op, _ in self._body_for_queue(data, str(ci.name), model_roots)]
+                e2["prog"] = self._body_for_queue(data, str(ci.name), model_roots)
                 ctx.ents.append(e2)
                 q = len(ctx.ents) - 1
             self.emit(prog, ("mintmodel", c, q), ctx)
         else:
             # create phase of a component: properties are left for _process_models
-            entry["prog"] = [(op, 0) for op, _ in self._body_for_queue(data, str(ci.name), model_roots)]
+            entry["prog"] = self._body_for_queue(data, str(ci.name), model_roots)
             ctx.ents.append(entry)
             q = len(ctx.ents) - 1
             if top is not None:
@@ -300,6 +300,16 @@ class Abs:
         for k, v in (schema.get("properties") or {}).items():
             out[k] = sig(v)
         return out
+
+    def sig_obj(self, v):
+        oai = self.oai
+        if not isinstance(v, oai.Schema) or v.enum or v.const is not None or v.anyOf or v.oneOf or v.allOf or isinstance(v.type, list):
+            return None
+        if v.type == oai.DataType.STRING and not v.schema_format:
+            return "string"
+        if v.type in (oai.DataType.INTEGER, oai.DataType.NUMBER, oai.DataType.BOOLEAN):
+            return v.type.value
+        return None
 
     def body(self, data, class_name, ctx, prog):
         """mirror of _process_properties + _get_additional_properties (model_property.py)"""
@@ -345,12 +355,7 @@ class Abs:
         pynames = {}
         for key, value in unprocessed:
             self.walk(key, value, ctx.evolve(kind="prop"), class_name, prog)
-            rawv = None
-            if isinstance(value, oai.Schema):
-                rawv = value.model_dump(by_alias=True, exclude_none=True, mode="json")
-                if "schema_type" in rawv:
-                    rawv["type"] = rawv.pop("schema_type")
-            s = self.flat_props({"properties": {key: rawv}}).get(key) if rawv is not None else None
+            s = self.sig_obj(value)
             if conflict(key, s):
                 self.emit(prog, ("fail", CAT["intrinsic"]), ctx)
                 return
@@ -380,7 +385,7 @@ class Abs:
         if t == "fail":
             o = f"OFail {op[1]}"
         elif t == "need":
-            o = f"ONeed {self.KIND[op[1]]} {op[2]} {self.c_roots(op[3])}"
+            o = f"ONeed {self.KIND[op[1]]} {op[2]} {self.c_roots(op[3])} {op[4]} {'true' if op[5] else 'false'}"
         elif t == "allof":
             o = f"OAllOf {op[1]} {self.c_roots(op[2])} {'true' if op[3] else 'false'}"
         elif t == "dep":
